@@ -364,6 +364,8 @@ func (e *Exec) specLoc(m Clause, env *SpecEnv, add func(key, ref string)) {
 				add("elems:Int", "")
 				add("elems:Bool", "")
 				add("elems:Ref", "")
+				add("elems:Val", "")
+				add("elems:Hdl", "")
 				return
 			}
 			v, t := e.evalSpec(y.Args[0], env)
@@ -710,7 +712,7 @@ func (e *Exec) guessHeapSort(k string) string {
 		return arrSort(SArrI)
 	case k == "elems:Bool":
 		return arrSort(SArrB)
-	case k == "elems:Int", k == "elems:Ref":
+	case k == "elems:Int", k == "elems:Ref", k == "elems:Val", k == "elems:Hdl":
 		return arrSort(SArrI)
 	case k == "ptr:Bool":
 		return SArrB
